@@ -620,10 +620,9 @@ def tight_scenario(g, lmeta, rmeta, measure, threshold):
     if rng.random() < 0.5:
         lvals, rvals = rvals, lvals
     lk = add_rows(g, lmeta, lvals, 'v')
-    if rmeta['name'] != lmeta['name']:
-        rk = add_rows(g, rmeta, rvals, 'v')
-    else:
-        rk = add_rows(g, lmeta, rvals, 'v')
+    # (same table on both sides: the right view may look at it through another
+    # key column / attribute; add_rows follows the view it is given)
+    rk = add_rows(g, rmeta, rvals, 'v')
     # the boundary pair itself (first value on each side)
     g.last_tight = {'lkey': lk[0], 'rkey': rk[0], 'ls': lvals[0],
                     'rs': rvals[0]}
